@@ -269,3 +269,23 @@ def observe(xform, itemsets, src):
     if itemsets:
         rows = [list(r) for r in csv.reader(io.StringIO(itemsets))]
     return {"instances": insts, "selects": sels, "others": others, "csv": rows}
+
+
+def observe_free(xform):
+    """facts that need no knowledge of the source: instance ids (with the itextIds of their items) and the instances that itemsets / queries read"""
+    root = project.parse(xform)
+    insts = []
+    for s in project.secondary_instances(root):
+        ids = [dict(it).get("itextId") for it in (s["items"] or []) if "itextId" in dict(it)]
+        insts.append({"id": s["id"] or "", "itext_ids": ids})
+    reads = []
+    for c in project.body_preorder(root):
+        texts = []
+        if c["itemset"]:
+            texts.append(c["itemset"]["nodeset"] or "")
+        # (a select_one_external's query reads a list that is delivered beside the form, in itemsets.csv: not an in-form instance)
+        for t in texts:
+            m = re.match(r"^(?:randomize\()?instance\('([^']+)'\)/root/item", t.strip())
+            if m:
+                reads.append(m.group(1))
+    return {"instances": insts, "reads": sorted(set(reads))}
